@@ -5,7 +5,7 @@ set_nested_in_value, remove, get, begin_undo_frame, commit_undo_frame, rollback_
 record_undo_for_key}.
 
 Histories: K operations with symbolic arguments over keys {a,b,c}:
-  begin | commit | rollback | set(k, Integer v) | set(k, Object{}) | set_nested("k.x", Integer v) | remove(k)
+  begin | commit | rollback | set(k, Integer v) | set(k, Object{}) | set_nested("k.x", Integer v) | set_nested("k", Integer v) | remove(k)
 Reference: a stack of full snapshots taken at begin; rollback restores the top snapshot,
 commit only pops it (so an enclosing rollback still restores the enclosing snapshot).
 """
@@ -20,7 +20,7 @@ FUNCTIONS = ["Facts::new", "Facts::set", "Facts::set_nested", "Facts::set_nested
              "Facts::begin_undo_frame", "Facts::commit_undo_frame", "Facts::rollback_undo_frame", "Facts::record_undo_for_key"]
 KEYS = ["a", "b", "c"]
 TIERS = {
-    "quick": [{"K": 5, "keys": 2}],
+    "quick": [{"K": 5, "keys": 2}, {"K": 6, "keys": 1}],
     "thorough": [{"K": 7, "keys": 2}, {"K": 6, "keys": 3}],
 }
 ASSUMPTIONS = [
@@ -69,7 +69,7 @@ def run(K, keys=2, witness=False):
     committed_inner = False
     for step in range(K):
         h.tag = "step%d" % step
-        op = h.int("op%d" % step, 0, 6).v
+        op = h.int("op%d" % step, 0, 7).v
         ki, ks = pick(h, "key%d" % step, KS)
         v = h.int("val%d" % step, 0, 3, "i64").v
         h.assume(z3.Implies(z3.Or(op == 1, op == 2), depth >= 1))
@@ -90,6 +90,11 @@ def run(K, keys=2, witness=False):
                     ip.call("Facts::set_nested", [f, S(KS[j] + ".x"), En("Value", vi["Integer"], {vi["Integer"]: [I(v, "i64")]})])
         with ip.under(op == 6):
             ip.call("Facts::remove", [f, ks])
+        for j in range(len(KS)):
+            with ip.under(band(op == 7, ki == j)):
+                if ip.g is not False:
+                    # single-segment path: behaves like set()
+                    ip.call("Facts::set_nested", [f, S(KS[j]), En("Value", vi["Integer"], {vi["Integer"]: [I(v, "i64")]})])
         # model -----------------------------------------------------------------
         saw_nested_commit_then_rollback = bor(saw_nested_commit_then_rollback, band(op == 2, committed_inner, depth >= 1))
         committed_inner = bor(band(committed_inner, bnot(band(op == 2, depth == 1))), band(op == 1, depth >= 2))
@@ -104,7 +109,7 @@ def run(K, keys=2, witness=False):
             sel = ki == KS.index(k)
             cur = dict(st[k])
             # writes
-            setint = band(op == 3, sel)
+            setint = band(bor(op == 3, op == 7), sel)
             setobj = band(op == 4, sel)
             setnest = band(op == 5, sel, cur["p"], cur["kind"] == 1)
             rem = band(op == 6, sel)
@@ -151,14 +156,14 @@ def run(K, keys=2, witness=False):
 
 
 def decode(res, m):
-    names = ["begin", "commit", "rollback", "set_int", "set_obj", "set_nested", "remove"]
+    names = ["begin", "commit", "rollback", "set_int", "set_obj", "set_nested", "remove", "set_nested_flat"]
     out = []
     for s in range(res["K"]):
         op = m["op%d" % s]
         o = {"op": names[op]}
         if op >= 3:
             o["key"] = res["KS"][m["key%d" % s]]
-        if op in (3, 5):
+        if op in (3, 5, 7):
             o["value"] = m["val%d" % s]
         out.append(o)
     return out
@@ -198,6 +203,8 @@ def replay_source(trace):
             lines.append('f.set("%s", Value::Object(HashMap::new())); cur.insert("%s".to_string(), Value::Object(HashMap::new()));' % (k, k))
         elif o["op"] == "set_nested":
             lines.append('{ let _ = f.set_nested("%s.x", Value::Integer(%d)); if let Some(Value::Object(m)) = cur.get_mut("%s") { m.insert("x".to_string(), Value::Integer(%d)); } }' % (k, o["value"], k, o["value"]))
+        elif o["op"] == "set_nested_flat":
+            lines.append('{ let _ = f.set_nested("%s", Value::Integer(%d)); cur.insert("%s".to_string(), Value::Integer(%d)); }' % (k, o["value"], k, o["value"]))
         else:
             lines.append('f.remove("%s"); cur.remove("%s");' % (k, k))
         lines.append('for k in ["a", "b", "c"] { if f.get(k) != cur.get(k).cloned() { bad.push(format!("after step {}: key {} is {:?}, reference {:?}", step, k, f.get(k), cur.get(k))); } } step += 1;')
